@@ -156,7 +156,7 @@ func (w *World) nextStep(r *Rand) Step {
 // modifiers are weights that tune block generation instead of naming a step kind
 func isModifier(k string) bool {
 	switch k {
-	case "p.absent", "p.evidence", "p.round", "p.engine", "p.crash", "p.timejump", "p.reexec", "p.skew", "p.byz", "p.elrestart", "p.junk", "p.finfault":
+	case "p.absent", "p.evidence", "p.round", "p.engine", "p.crash", "p.timejump", "p.reexec", "p.skew", "p.byz", "p.elrestart", "p.junk", "p.finfault", "p.shadowdiff", "p.multisched":
 		return true
 	}
 	return false
@@ -290,6 +290,12 @@ func (w *World) genBlock(r *Rand) *BlockArgs {
 	}
 	if r.Chance(w.weight("p.reexec")) {
 		a.Reexec = 1 + r.Intn(cfg.Nodes)
+	}
+	if r.Chance(w.weight("p.shadowdiff")) {
+		a.ShadowDiff = 1 + r.Intn(cfg.Nodes)
+	}
+	if r.Chance(w.weight("p.multisched")) {
+		a.MultiSched = 2 + r.Intn(7)
 	}
 	if r.Chance(w.weight("p.skew")) {
 		a.SkewMs = map[string]int{fmt.Sprint(r.Intn(cfg.Nodes)): []int{-3000, -1000, 0, 1000, 2500, 10000}[r.Intn(6)]}
